@@ -881,7 +881,24 @@ class C18(RefProp):
         for t in ["PRINT a\nSTRING x\nDELAY -1", "PRINT a\n    b\n    c\n$PRINT 1+1\nFOO\n$STRING nosuch", "REPEAT i,3\n    $PRINT i\n    IF i==1\n        $STRING 1/0",
                   "FUNC f p\n    PRINT in\n    $PRINT p\nRUN f 1\nRUN f 2\nPRINT done", "PRINT\nPRINT  spaced  \n$PRINT \"  q \""]:
             out.append(comp(t))
+        import props2
+        F = props2.fcase
+        out.append(F({("m.txt",): "STARTENV d.lib\nPRINT main1\nRUN shout 1\nPRINT main2", ("d", "lib.txt"): "PRINT lib1\nFUNC shout x\n    PRINT inlib\n    $PRINT x"}, ("m.txt",),
+                     expect_print_files=[("lib.txt", 1), ("m.txt", 2), ("lib.txt", 3), ("lib.txt", 4), ("m.txt", 4)]))
+        out.append(F({("m.txt",): "START a\nSTARTCODE b\nPRINT end\nDELAY -1", ("a.txt",): "PRINT\n    a1\n    a2", ("b.txt",): "REPEAT 2\n    PRINT b"}, ("m.txt",),
+                     expect_print_files=[("a.txt", 2), ("a.txt", 3), ("b.txt", 2), ("b.txt", 2), ("m.txt", 3)]))
+        out.append(comp("PRINT\n    one\n    two\n    three\nPRINT four\n    five", {}, expect_prints=["one", "two", "three", "four", "five"]))
         return out
+
+    def oracle(self, c, i):
+        if "expect_print_files" in c and isinstance(i.get("prints"), list):
+            got = [(dec(p[2][-1]) if p[2] else None, p[1]) for p in i["prints"]]
+            if got != [tuple(x) for x in c["expect_print_files"]]:
+                return ("print_location_wrong", "prints located at %r, expected %r" % (got, c["expect_print_files"]))
+        if "expect_prints" in c and isinstance(i.get("prints"), list):
+            if [dec(p[0]) for p in i["prints"]] != c["expect_prints"]:
+                return ("print_list_wrong", "prints %r, expected %r" % ([dec(p[0]) for p in i["prints"]], c["expect_prints"]))
+        return RefProp.oracle(self, c, i)
 
     def extra_checks(self, rng, tier, escalate):
         n = 150 if tier == "quick" and not escalate else 2000
@@ -895,7 +912,7 @@ class C18(RefProp):
             def swap(p, mode):
                 o = []
                 for s in p:
-                    if s[0] in ("print", "printx"):
+                    if s[0] in ("print", "printx", "printg"):
                         o.append(("emit_pass",) if mode == "pass" else ("print", "changed"))
                     elif s[0] == "if":
                         o.append(("if", [(c, swap(b, mode)) for c, b in s[1]], None if s[2] is None else swap(s[2], mode)))
@@ -912,8 +929,6 @@ class C18(RefProp):
             if i0["status"] != "OK":
                 continue
             for mode in ("pass", "text"):
-                lines = refsem.to_lines([s for s in swap(prog, mode)])
-                # ("emit_pass",) is not printable by to_lines: patch
                 text = "\n".join(l for l in self.patch(prog, mode))
                 i1 = common.run_impl_case(comp(text))
                 ev += 1
@@ -922,16 +937,35 @@ class C18(RefProp):
         return {"violations": viol, "evaluations": ev, "summary": {"print_swap_programs": n}}
 
     def patch(self, prog, mode):
-        lines = refsem.to_lines(prog)
-        out = []
-        for l in lines:
-            s = l.lstrip()
-            ind = l[: len(l) - len(s)]
-            if s.startswith("PRINT ") or s.startswith("$PRINT "):
-                out.append(ind + ("PASS" if mode == "pass" else "PRINT changed text"))
+        def swap(p):
+            o = []
+            for s in p:
+                if s[0] in ("print", "printx", "printg"):
+                    o.append(("emit_raw", "PASS") if mode == "pass" else ("print", "changed text"))
+                elif s[0] == "if":
+                    o.append(("if", [(c, swap(b)) for c, b in s[1]], None if s[2] is None else swap(s[2])))
+                elif s[0] in ("repeat", "while", "func"):
+                    o.append(s[:3] + (swap(s[3]),))
+                else:
+                    o.append(s)
+            return o
+        lines = []
+        for l in refsem.to_lines([("emit", "\x00RAW\x00" + x[1]) if x[0] == "emit_raw" else x for x in self._flatten_raw(swap(prog))]):
+            lines.append(l.replace("STRING \x00RAW\x00", "").replace("string \x00RAW\x00", ""))
+        return lines
+
+    def _flatten_raw(self, p):
+        o = []
+        for s in p:
+            if s[0] == "if":
+                o.append(("if", [(c, self._flatten_raw(b)) for c, b in s[1]], None if s[2] is None else self._flatten_raw(s[2])))
+            elif s[0] in ("repeat", "while", "func"):
+                o.append(s[:3] + (self._flatten_raw(s[3]),))
+            elif s[0] == "emit_raw":
+                o.append(("emit", "\x00RAW\x00" + s[1]))
             else:
-                out.append(l)
-        return out
+                o.append(s)
+        return o
 
 
 # ====================================================================================== C09
